@@ -229,6 +229,8 @@ class Exec(StmtMixin, CallMixin):
             raise Unsupported("attribute %s.%s (line %d)" % (base.name, a, n.lineno))
         if isinstance(base, (SList, list, dict, str, tuple)):
             return SFunc(name="builtin." + a, handler=("method", base))
+        if isinstance(base, SFunc) and base.target and not base.handler:
+            return SFunc(target=base.target + "." + a, name=(base.name or base.target) + "." + a)   # Class.static_method
         if isinstance(base, SFunc) and base.name and base.name.startswith("numpy.") and not base.handler and not base.target:
             return SFunc(name=base.name + "." + a)   # numpy sub-namespaces: np.lib.stride_tricks.as_strided
         raise Unsupported("attribute %s on %r (line %d)" % (a, type(base), n.lineno))
